@@ -36,16 +36,18 @@ def run(F, R, tier):
         R.ob("C11-a", "entrypoints are traced with star-with-default", callee_matches(peel(a[2]), ["ImportedExports::star_with_default"]),
              "entrypoints are traced with `%s`: the default export (or star re-exports) of an entrypoint would be dropped from the emitted module" % expr_text(a[2]), where(tr[0]))
         lp = [x for x in k_ancestors(tr[0]) if x["k"] == "For"]
-        R.ob("C11-a", "every entrypoint is traced", bool(lp) and "entrypoints" in expr_text(lp[0]["iter"]) and peel_value(a[1]).get("lid") in {b["lid"] for b in pat_bindings(lp[0]["pat"])}, "not a loop over all entrypoints", where(tr[0]))
+        R.ob("C11-a", "every entrypoint is traced", bool(lp) and tyc(F, lp[0]["iter"], "BTreeSet<url::Url>") and peel_value(a[1]).get("lid") in {b["lid"] for b in pat_bindings(lp[0]["pat"])}, "not a loop over all entrypoints", where(tr[0]))
         g = guards_at(F, tr[0])
         R.ob("C11-a", "tracing is skipped only when an entrypoint already has a diagnostic", [x.text() for x in g if x.kind == "cond"] == ["!(had_diagnostic)"], "guards %s" % [x.text() for x in g], where(tr[0]))
-    dr = [n for n in fd["_nodes"] if n["k"] == "While" and "pending_traces" in expr_text(n["cond"])]
+    dr = [n for n in fd["_nodes"] if n["k"] == "While" and mentions_field(n["cond"], "pending_traces")]
     R.ob("C11-a", "the trace queue is drained", len(dr) == 1 and any(callee_matches(x, [RF + "analyze_trace"]) for x in walk(dr[0]["body"])), "pending traces are not all analysed", fd["file"])
-    ep = [n for n in fd["_nodes"] if n.get("k") == "MethodCall" and n["name"] == "values" and "exports" in expr_text(n["recv"])]
+    ep = [n for n in fd["_nodes"] if n.get("k") == "MethodCall" and n["name"] == "values" and tyc(F, n["recv"], "BTreeMap<std::string::String, std::string::String>")]
     R.ob("C11-a", "entrypoints are all values of the package's exports map", len(ep) == 1, "entrypoints no longer derived from every export", fd["file"])
     # ---------------- C11-c ------------------------------------------------
     td = F.body(T + "transform_decl")
-    mm = [n for n in td["_nodes"] if n["k"] == "Match" and expr_text(n["scrut"]) == "decl"]
+    prs = [n for n in td["_nodes"] if n.get("k") == "LetStmt" and "init" in n and peel(n["init"]).get("k") == "MethodCall" and peel(n["init"])["name"] == "unwrap_or_else" and tyc(F, n["pat"], "SourceRange")]
+    pr_lid = prs[0]["pat"].get("lid") if prs else None
+    mm = [n for n in td["_nodes"] if n["k"] == "Match" and tyc(F, n["scrut"], "::Decl") and peel(n["scrut"]).get("lid") == td["body"]["params"][1].get("lid")]
     if R.ob("C11-c", "declaration match found", len(mm) == 1, "shape changed", td["file"]):
         ca = False
         for arm in mm[0]["arms"]:
@@ -58,16 +60,16 @@ def run(F, R, tier):
                 ok = len(vals) == 1 and ctor_of(vals[0]) == "std::result::Result::Ok"
                 if ok:
                     inner = peel(vals[0]["args"][0])
-                    ok = callee_matches(inner, ["TransformItemResult::from_retain"]) and callee_matches(peel(inner["args"][0]), ["ModulePublicRanges::contains"]) and "public_range" in expr_text(inner["args"][0])
+                    ok = callee_matches(inner, ["TransformItemResult::from_retain"]) and callee_matches(peel(inner["args"][0]), ["ModulePublicRanges::contains"]) and peel_value(peel(inner["args"][0])["args"][0]).get("lid") == pr_lid
                 writes = [n for n in walk(arm["body"]) if n["k"] in ("Assign", "AssignOp")]
                 R.ob("C11-c", "%s is retained exactly when its range is public, untouched" % sorted(names)[0], ok and not writes, "arm is `%s`" % expr_text(arm["body"])[:80], where(arm["body"]))
             if names & {"Class", "Fn"}:
                 rets = [n for n in walk(arm["body"]) if n["k"] == "Ret"]
-                ok = len(rets) == 1 and any(x.kind == "cond" and not x.pol and callee_matches(x.node, ["ModulePublicRanges::contains"]) and "public_range" in expr_text(x.node) for x in guards_at(F, rets[0]))
+                ok = len(rets) == 1 and any(x.kind == "cond" and not x.pol and callee_matches(x.node, ["ModulePublicRanges::contains"]) and peel_value(x.node["args"][0]).get("lid") == pr_lid for x in guards_at(F, rets[0]))
                 R.ob("C11-c", "%s is removed exactly when its range is not public" % sorted(names)[0], ok, "removal of %s not decided by !public_ranges.contains(&public_range)" % sorted(names)[0], where(arm["body"]))
         R.ob("C11-c", "every declaration kind handled explicitly", not ca, "catch-all over Decl", where(mm[0]))
-    pr = [n for n in td["_nodes"] if n.get("k") == "LetStmt" and n["pat"].get("name") == "public_range"]
-    ok = len(pr) == 1 and peel(pr[0]["init"]).get("name") == "unwrap_or_else" and "parent_range" in expr_text(pr[0]["init"]) and any(x.get("name") == "range" for x in walk(pr[0]["init"]) if x.get("k") == "MethodCall")
+    pr = prs
+    ok = len(pr) == 1 and peel(pr[0]["init"]).get("name") == "unwrap_or_else" and peel_value(peel(pr[0]["init"])["recv"]).get("lid") == td["body"]["params"][3].get("lid") and any(x.get("name") == "range" for x in walk(pr[0]["init"]) if x.get("k") == "MethodCall")
     R.ob("C11-c", "the deciding range is the export wrapper's, else the declaration's own", ok, "public_range = %s" % (expr_text(pr[0]["init"]) if pr else "?"), td["file"])
     # ---------------- C11-d ------------------------------------------------
     ti = F.body(T + "transform_item")
@@ -81,8 +83,8 @@ def run(F, R, tier):
         blk = r
         while blk.get("_p") is not None and blk.get("k") != "Block":
             blk = blk["_p"]
-        ret = [n for n in walk(blk) if n.get("k") == "LetStmt" and n["pat"].get("name") == "retain"]
-        ok = len(ret) == 1 and peel(ret[0]["init"]).get("k") == "Unary" and "is_empty" in expr_text(ret[0]["init"])
+        ret = [n for n in walk(blk) if n.get("k") == "LetStmt" and "init" in n and tyc(F, n["pat"], "bool") and mentions_field(n["init"], "specifiers")]
+        ok = len(ret) == 1 and peel(ret[0]["init"]).get("k") == "Unary" and any(y.get("k") == "MethodCall" and y["name"] == "is_empty" for y in walk(ret[0]["init"]))
         R.ob("C11-d", "the statement is dropped when no specifier remains", ok, "retain = %s" % (expr_text(ret[0]["init"]) if ret else "?"), where(r))
 
     # ---------------- C11-e ------------------------------------------------
